@@ -190,6 +190,11 @@ def main(tier, seed):
             for mtime in ins + ([-1, 0, -1000000000 - 7] if zn in ZONES and now in ins[:2] else []):
                 cases.append({"zone": zn, "now": now, "mtime": mtime, "trans": tr,
                               "sizes": [0, 1, (1 << 20) + 1] if zn in ZONES and now == ins[0] else [0, 1]})
+    # days on which the ISO week-numbering year differs from the calendar year, the last second of a year, a leap day
+    import calendar
+    for zn in ("UTC", "Pacific/Chatham", "America/St_Johns"):
+        for ymd in ((2024, 12, 30, 12, 0, 0), (2027, 1, 1, 0, 0, 1), (2025, 12, 31, 23, 59, 59), (2024, 2, 29, 12, 0, 0)):
+            cases.append({"zone": zn, "now": calendar.timegm(ymd + (0, 0, 0)), "mtime": instants(zn)[0], "trans": transitions(zn), "sizes": [0, 1]})
     res = eng.pmap(work, cases)
     distinct = set()
     for case, vs in zip(cases, res):
